@@ -184,6 +184,10 @@ func main() {
 					hc.AutoWU = false
 					m := map[byte]h2raw.HF{'m': {":method", "GET"}, 'a': {":authority", "vf.test"}, 's': {":scheme", "https"}, 'p': {":path", "/r"}}
 					var ids []uint32
+					var henc *h2raw.Enc
+					if id%2 == 1 {
+						henc = &h2raw.Enc{}
+					}
 					for r, tag := range tags { // multiplexed: all requests are in flight together
 						var fs []h2raw.HF
 						for i := 0; i < 4; i++ {
@@ -191,7 +195,11 @@ func main() {
 						}
 						fs = append(fs, h2raw.HF{"x-vf-tag", tag})
 						sid := uint32(1 + 2*r)
-						cl.Conn.Write(h2raw.Headers(sid, true, h2raw.Block(fs), nil, 0))
+						blk := h2raw.Block(fs)
+						if henc != nil {
+							blk = henc.Block(fs)
+						}
+						cl.Conn.Write(h2raw.Headers(sid, true, blk, nil, 0))
 						ids = append(ids, sid)
 					}
 					if err := hc.WaitStreams(ids...); err != nil {
